@@ -69,6 +69,8 @@ def project(v, step):
         return ('variant', v, step[3:])
     if k == 'payload' and step == '0':
         return v[1]
+    if k == 'popped' and step == 'as Some':
+        return ('payload', ('head', v[1], v[2]))
     if k == 'variant' and step == '0' and v[1][0] in ('ucall', 'call', 'pure', 'popped'):
         return ('payload-of', v[1])
     if k == 'tuple' and step.isdigit() and int(step) < len(v[1]):
@@ -352,10 +354,19 @@ def summaries(g, item_arg=2, self_arg=1, pure_extra=(), limit=60000, maxd=MAXD):
             elif kind == 'call' and tail in _POP and name.startswith(_STD_COLL) and args:
                 p = W.place_path(args[0])
                 if p:
-                    res = cap(('popped', W.resolve_self(store, p), tail))
-                    W.write_self(store, p, UNK)
+                    q = W.resolve_self(store, p)
+                    res = cap(('popped', q, tail))
+                    W.write_self(store, p, cap(('rest', q, tail)))
                 else:
                     res = UNK
+            elif kind == 'call' and name in ('rc::RcDeref::rc_deref', 'rc::RcDerefMut::rc_deref_mut') and args:
+                # a guard: stays a symbolic place, so that reads through it see the writes made so far on this path
+                b = W.ev(args[0], store, vals)
+                res = ('self', b[1] + ('@',)) if b[0] == 'self' else project(W._fin(b, store), '@')
+            elif kind == 'call' and name in ('std::option::Option::unwrap', 'std::option::Option::expect', 'std::option::Option::unwrap_unchecked') and args:
+                res = project(project(W.val(args[0], store, vals), 'as Some'), '0')
+            elif kind == 'call' and (is_transparent(name) or name.endswith('::project')) and args:
+                res = W.ev(args[0], store, vals)
             elif kind == 'call' and (tail in _PURE or tail in pure_extra or is_transparent(name)):
                 a = [W.val(x, store, vals) for x in args]
                 if tail == 'clone' and a:
@@ -385,9 +396,9 @@ def summaries(g, item_arg=2, self_arg=1, pure_extra=(), limit=60000, maxd=MAXD):
                             W.write_self(store, p, UNK)
                 res = ('call', name)
             if res is not None and site is not None:
-                vals[site] = cap(res)
+                vals[site] = res if res[0] == 'self' else cap(res)
             if res is not None and kind == 'call' and n.get('dest') and n['dest'][0] == 'local':
-                store[('L', n['dest'][1])] = cap(res)
+                store[('L', n['dest'][1])] = res if res[0] == 'self' else cap(res)
         elif kind == 'exit' and n.get('name') != '<closure>':
             site = n['value'][3] if n.get('value') and n['value'][0] == 'call' else None
             L = (n['ctx'] + ((n['fn'], n['bb'], n['body']),), 0)
